@@ -184,7 +184,8 @@ def finalize(agg):
     for k in range(6):
         if st.get("Hkind|%d" % k, 0) < 50:
             reasons.append("H kind %d driven only %d times" % (k, st.get("Hkind|%d" % k, 0)))
-    cov = dict(contract_evaluations=dict(trsbox_direct=int(st.get("direct_calls", 0)),
+    cov = dict(evaluations=int(st.get("direct_calls", 0) + st.get("insitu_contract_evaluations", 0)),
+               contract_evaluations=dict(trsbox_direct=int(st.get("direct_calls", 0)),
                                          trsbox_in_situ=int(st.get("insitu_contract_evaluations", 0))),
                direct_steps_on_ball=int(st.get("direct_on_ball", 0)), direct_steps_on_bound=int(st.get("direct_on_bound", 0)),
                solver_runs_in_situ=int(st.get("runs", 0)), have_icontract=contracts.HAVE_ICONTRACT,
